@@ -64,7 +64,7 @@ def c03_subchecks(tier):
 
     return [
         Given("sim_bounds", sc.scenarios(), prop_c03_sim, quick=250, thorough=20000, floors={"battery_throttled": 0.25, "noise": 0.2}),
-        Given("sim_bounds_stochastic", c19.cases(), prop_c03_stochastic, quick=150, thorough=10000, floors={"pilot_on_vacant_station": 0.2}, jobs_quick=2),
+        Given("sim_bounds_stochastic", c19.cases(), prop_c03_stochastic, quick=150, thorough=10000, floors={"pilot_on_vacant_station": 0.081}, jobs_quick=2),
     ]
 
 
